@@ -177,7 +177,16 @@ def check_term_product(ctx):
     ops_alias = [name for name, ds in d.defs.items() if any(isinstance(x, ast.AST) and norm(x) in ("self._ops.copy()", "dict(self._ops)", "{**self._ops}") for x in ds)]
     for a in ops_alias:
         cur_forms.add(f"{a}[{idx}]")
-    ex = Expander(f.node, keep=ops_alias)
+    # the same read spelt with .get (None when the qubit is unused), and a local holding it (read before anything is stored)
+    for base in ["self._ops"] + ops_alias:
+        cur_forms.add(f"{base}.get({idx})")
+    for name, ds in d.defs.items():
+        vs = [x for x in ds if isinstance(x, ast.AST)]
+        if len(ds) == 1 and len(vs) == 1 and norm(vs[0]) in cur_forms:
+            first_store = min((n.lineno for n in body_walk(f.node) if isinstance(n, (ast.Assign, ast.Delete)) and any(isinstance(t, ast.Subscript) and norm(t.value) in ops_alias for t in (n.targets))), default=10**9)
+            if vs[0].lineno < first_store:
+                cur_forms.add(name)
+    ex = Expander(f.node, keep=ops_alias + [c for c in cur_forms if c.isidentifier()])
     if len(lookups) != 1:
         ctx.undecided(R2, f.key + ":phase-lookup", f"expected one COEFF_MAP lookup, found {len(lookups)}", f)
     else:
